@@ -68,6 +68,8 @@ def coq_build(jobs=16, timeout=2400):
     with open(os.path.join(BUILD, ".lock"), "w") as lk:
         fcntl.flock(lk, fcntl.LOCK_EX)
         gen = py2coq.regenerate(os.path.join(COQ, "Gen"), os.path.join(REPO, "src", "xstate_statemachine"))
+        from harness import py2coq_tree
+        gen.update(py2coq_tree.regenerate(os.path.join(COQ, "Gen"), os.path.join(REPO, "src", "xstate_statemachine")))
         files = _vfiles()
         listing = "\n".join(files)
         lst = os.path.join(BUILD, "vfiles.txt")
